@@ -152,6 +152,16 @@ pub fn l2l4_frames() -> Vec<PFrame> {
         v.push(pf(&format!("echo-1480-{}", v6), flow(v6, 40000, 80).icmp_echo(3, 4, &big)));
         v.push(pf(&format!("echo-12-{}", v6), flow(v6, 40000, 80).icmp_echo(3, 4, &big[..12])));
     }
+    // group / broadcast destinations (answered when there is no self-IP list): what they are answered
+    // FROM must not depend on earlier traffic
+    for (dn, d4, d6) in [("mcast", Ip::V4([224, 0, 0, 1]), Ip::parse("ff02::1")), ("bcast", Ip::V4([255, 255, 255, 255]), Ip::parse("ff02::fb"))] {
+        for v6 in [false, true] {
+            let mut f = flow(v6, 40000, 80);
+            f.sip = if v6 { d6 } else { d4 };
+            v.push(pf(&format!("echo-{}-{}", dn, v6), f.icmp_echo(1, 2, b"pp")));
+            v.push(pf(&format!("stun-{}-{}", dn, v6), f.udp(&stun_magic(&[], &ID12))));
+        }
+    }
     // one source endpoint, several destinations
     for (dn, d4, d6) in [("dstA", srv4(), srv6()), ("dstB", srv4b(), srv6b())] {
         for v6 in [false, true] {
